@@ -96,7 +96,8 @@ def graphs_of(task):
     return [('mol%d' % task['index'], mol)]
 
 
-HIST_OPS = [('plain', 1.0), ('plain', 2.5), ('refined', 1.0), ('refined', 2.5), ('refined-strict', 2.0)]
+HIST_OPS = [('plain', 1.0), ('plain', 2.5), ('refined', 1.0), ('refined', 2.5), ('refined-strict', 2.0),
+            ('draw', 1.0), ('draw', 2.5), ('draw-refined', 1.5)]      # draw = the drawing front end (draw_molecule) with that layout
 
 
 def eval_history(inp):
@@ -108,8 +109,23 @@ def eval_history(inp):
     nx.set_edge_attributes(h, 1, 'order')
     for kind, b in inp['history']:
         np.random.seed(0)
+        if kind == 'grow':
+            # the caller edits the graph in place between two layouts: one more atom on the first node
+            new = max(h.nodes) + 1
+            h.add_node(new, element='C')
+            h.add_edge(sorted(h.nodes)[0], new, order=1)
+            continue
         try:
-            if kind == 'plain':
+            if kind.startswith('draw'):
+                import matplotlib
+                matplotlib.use('Agg')
+                import matplotlib.pyplot as plt
+                from cgsmiles.drawing import draw_molecule
+                nx.set_node_attributes(h, 'C', 'element')
+                _, pos = draw_molecule(h, layout_method='vespr' if kind == 'draw' else 'vespr_refined', default_bond=b, cg_mapping=False)
+                plt.close('all')
+                tol = 1e-9 if kind == 'draw' else 5e-3
+            elif kind == 'plain':
                 pos, tol = vespr_layout(h, default_bond=b), 1e-9
             elif kind == 'refined':
                 pos, tol = vespr_refined_layout(h, default_bond=b), 5e-3
@@ -133,6 +149,13 @@ def run_history(task, R):
                 ex.transitions += 2
                 inp = {'graph': 'tree%d' % task['index'], 'history': [list(first), list(second)], 'relabel': rl}
                 R.record(inp, eval_history(inp))
+    # layout, in-place edit of the same graph object, layout again with the same settings
+    for op in (('refined', 1.0), ('refined', 2.5), ('plain', 1.0), ('draw-refined', 1.5)):
+        for rl in ('id', 'offset'):
+            ex.states += 1
+            ex.transitions += 3
+            inp = {'graph': 'tree%d' % task['index'], 'history': [list(op), ['grow', 0], list(op)], 'relabel': rl}
+            R.record(inp, eval_history(inp))
     R.add_explorer(ex)
 
 
